@@ -299,16 +299,74 @@ func driverMain(id, tier string) int {
 				}
 				go func() { done <- cmd.Wait() }()
 				var werr error
+				killed := false
 				select {
 				case werr = <-done:
 				case <-time.After(budget + 90*time.Second):
 					cmd.Process.Kill()
 					werr = fmt.Errorf("killed after overrunning its budget")
+					killed = true
 					<-done
 				}
 				var res Result
 				lines := bytes.Split(bytes.TrimSpace(out.Bytes()), []byte("\n"))
 				ok := len(lines) > 0 && json.Unmarshal(lines[len(lines)-1], &res) == nil
+				if !ok && !killed {
+					// the worker died without a verdict: once more, with a journal that
+					// names the transition in flight
+					jpath := filepath.Join(verifDir(), ".build", fmt.Sprintf("journal.%d.%d", os.Getpid(), i))
+					os.MkdirAll(filepath.Dir(jpath), 0o755)
+					deadline2 := time.Now().Add(budget)
+					c2 := exec.Command(exe, "-worker", id, tier, strconv.Itoa(i), strconv.FormatInt(deadline2.UnixMilli(), 10))
+					c2.Env = append(os.Environ(), "GOMAXPROCS=1", "GOMEMLIMIT=5GiB", "VERIF_JOURNAL="+jpath)
+					var out2, err2 bytes.Buffer
+					c2.Stdout, c2.Stderr = &out2, &err2
+					d2 := make(chan error, 1)
+					var werr2 error
+					if c2.Start() == nil {
+						go func() { d2 <- c2.Wait() }()
+						select {
+						case werr2 = <-d2:
+						case <-time.After(budget + 90*time.Second):
+							c2.Process.Kill()
+							werr2 = fmt.Errorf("killed after overrunning its budget")
+							<-d2
+						}
+					}
+					lines2 := bytes.Split(bytes.TrimSpace(out2.Bytes()), []byte("\n"))
+					var res2 Result
+					if len(lines2) > 0 && json.Unmarshal(lines2[len(lines2)-1], &res2) == nil {
+						// not reproduced: keep the second run's verdicts, note the incident
+						res, ok = res2, true
+						res.Incidents = append(res.Incidents, fmt.Sprintf("shard %s: a first worker ended abnormally (%v) and a second run completed", shards[i].Name, werr))
+						werr = werr2
+						out, errb = out2, err2
+					} else {
+						tail := strings.TrimSpace(err2.String())
+						if len(tail) > 1500 {
+							tail = tail[:1500]
+						}
+						crashed := strings.Contains(tail, "panic:") || strings.Contains(tail, "fatal error:") || strings.Contains(tail, "goroutine ")
+						var st StuckHistory
+						jb, _ := os.ReadFile(jpath)
+						if json.Unmarshal(bytes.TrimSpace(jb), &st) == nil && st.Scenario != "" {
+							st.Kind = "no-crash"
+							res.Stuck = &st
+							res.Scenario = shards[i].Name
+							res.Incidents = append(res.Incidents, fmt.Sprintf("no-crash: the worker of shard %s died twice; transition in flight: [%s] %s; stderr: %s", shards[i].Name, st.Seed, strings.Join(st.History, "; "), tail))
+							ok = true
+						} else if crashed && werr2 != nil && !strings.Contains(werr2.Error(), "killed") {
+							// died twice before any transition of the explorer (or in a shard that
+							// enumerates without it), with a runtime crash report
+							res = Result{Scenario: shards[i].Name, Property: id}
+							res.Violations = append(res.Violations, Violation{Property: id, Clause: id + ".no-crash", Scenario: shards[i].Name,
+								History: []string{"(the process crashes; no single history could be named)"},
+								Detail:  "the worker process of this shard crashed twice in the same way: " + tail, Params: "stuck"})
+							ok = true
+						}
+					}
+					os.Remove(jpath)
+				}
 				if ok && res.Stuck != nil {
 					// pin the hang to that one history: it must fail to complete twice, alone,
 					// within 20 s each (six orders of magnitude above its normal cost)
@@ -336,7 +394,7 @@ func driverMain(id, tier string) int {
 					}
 					if failures == 2 {
 						res.Violations = append(res.Violations, Violation{Property: id, Clause: id + "." + res.Stuck.Kind, Scenario: res.Stuck.Scenario, Seed: res.Stuck.Seed, History: res.Stuck.History,
-							Detail: "this history does not complete: executed alone, twice, it neither finished within 20 s nor stayed below 4 GB", Params: "stuck"})
+							Detail: "this history does not complete: executed alone in a fresh process, twice, it crashed the process, did not finish within 20 s or did not stay below 4 GB", Params: "stuck"})
 					}
 				}
 				mu.Lock()
